@@ -228,7 +228,7 @@ def h16_eager(S, pre_len=3):
         orig_store = w.rb.store_bucket
 
         async def store(id_, payload):
-            order.append(("STORE", payload.success, payload.data, payload.exception))
+            order.append(("STORE", payload.success, payload.data, payload.exception, payload.started_when, payload.finished_when))
             if store_fails:
                 raise ConnectionError('result storage answered {"error": "down", "retry": {"after": 5}}')
             return await orig_store(id_, payload)
@@ -307,6 +307,9 @@ def h16_eager(S, pre_len=3):
         last = pre[sets[-1]]
         st = [x for x in order if x[0] == "STORE"]
         S.check("exactly-one-store", len(st) == 1, info=str(st))
+        if len(st) == 1 and via_process:
+            # both instants are readings of the same clock (the processor's wall clock in ns)
+            S.check("started-not-after-finished", st[0][4] <= st[0][5], info=f"started_when={st[0][4]} finished_when={st[0][5]}")
         if len(st) == 1:
             if last == "set_result":
                 S.check("stored-the-latest-result", st[0][1] is True and st[0][2] == '{"v":%d}' % sets[-1], info=str(st))
